@@ -165,6 +165,12 @@ func Load(dir string, overlay map[string][]byte, patterns ...string) (*Prog, err
 			despill(fn)
 		}
 	}
+	if os.Getenv("OBSA_NO_DEBOUND") == "" {
+		Debound = 0
+		for _, fn := range p.Funcs {
+			debound(fn)
+		}
+	}
 	p.loadFuncAliases()
 	p.loadClosureAliases()
 	for _, fn := range p.Funcs {
